@@ -4,7 +4,10 @@ pub mod event;
 
 use event::{Event, ToEventMask};
 
+#[cfg(not(humphrey_verif))]
 use std::sync::mpsc::Sender;
+#[cfg(humphrey_verif)]
+use humsim::sync::mpsc::Sender;
 
 /// Represents configuration for monitoring.
 ///
